@@ -45,6 +45,7 @@ const (
 	settleSlack   = 3500 * time.Millisecond // after two complete polling iterations without a signal
 	settleMax     = 45 * time.Second        // a Poll is abandoned after this long in any case
 	tempPrefix    = ".mutagen-temporary-"   // names the scan (and therefore the walker) ignores
+	ignoredSuffix = ".log"                  // the endpoint is configured with the ignore "*.log"
 
 	gPollBeforeLock = "poll-before-lock"
 	gPollAfterScan  = "poll-after-scan"
@@ -63,6 +64,7 @@ type caseSpec struct {
 	Steps []step `json:"steps"`
 	Seed  int64  `json:"seed"`
 	Ops   int    `json:"ops"`
+	Init  string `json:"init"` // state of x before the endpoint is created: "" (absent), "b", "c"
 }
 
 // ---------------------------------------------------------------------------
@@ -81,6 +83,10 @@ func fpEntry(e *core.Entry) string {
 		sort.Strings(names)
 		parts := make([]string, 0, len(names))
 		for _, n := range names {
+			// content the scan ignored is listed as untracked: not part of the tree (the walker skips it too)
+			if k := e.Contents[n].GetKind(); k == core.EntryKind_Untracked {
+				continue
+			}
 			parts = append(parts, n+"="+fpEntry(e.Contents[n]))
 		}
 		return "d{" + strings.Join(parts, ",") + "}"
@@ -107,7 +113,7 @@ func fpDisk(path string) string {
 		}
 		names := []string{}
 		for _, de := range des {
-			if strings.HasPrefix(de.Name(), tempPrefix) {
+			if strings.HasPrefix(de.Name(), tempPrefix) || strings.HasSuffix(de.Name(), ignoredSuffix) {
 				continue
 			}
 			names = append(names, de.Name())
@@ -160,6 +166,14 @@ func fileContent(v string) []byte {
 		return []byte(strings.Repeat("content-c ", 40))
 	case "d":
 		return []byte(strings.Repeat("content-d!", 77))
+	case "z": // never present in the root: cannot be staged
+		return []byte(strings.Repeat("content-z?", 13))
+	case "u1": // what a user writes
+		return []byte(strings.Repeat("user-edit-1 ", 21))
+	case "u9":
+		return []byte(strings.Repeat("user-file-9 ", 5))
+	case "s": // same size as c, different content
+		return []byte(strings.Repeat("CONTENT-C ", 40))
 	}
 	return nil
 }
@@ -399,6 +413,21 @@ func newWorld(c *vlib.Ctx, cs caseSpec, parkPoller bool) (*world, error) {
 		t := time.Unix(1500000000, 0)
 		os.Chtimes(p, t, t)
 	}
+	switch cs.Init {
+	case "b":
+		os.Mkdir(filepath.Join(w.root, "x"), 0o755)
+		for k, v := range map[string]string{"k1": "c", "k2": "d"} {
+			p := filepath.Join(w.root, "x", k)
+			os.WriteFile(p, fileContent(v), 0o644)
+			t := time.Unix(1500000100, 0)
+			os.Chtimes(p, t, t)
+		}
+	case "c":
+		p := filepath.Join(w.root, "x")
+		os.WriteFile(p, fileContent("c"), 0o644)
+		t := time.Unix(1500000100, 0)
+		os.Chtimes(p, t, t)
+	}
 	w.sid = fmt.Sprintf("sync_pollwatch%08d", cid)
 	w.t0 = time.Now()
 	w.diskFP = fpDisk(w.root)
@@ -408,6 +437,7 @@ func newWorld(c *vlib.Ctx, cs caseSpec, parkPoller bool) (*world, error) {
 		WatchMode:            synchronization.WatchMode_WatchModeForcePoll,
 		WatchPollingInterval: 1,
 		ScanMode:             synchronization.ScanMode_ScanModeAccelerated,
+		Ignores:              []string{"*" + ignoredSuffix},
 	}
 	w.emit(map[string]any{"ev": "Begin", "begin": true, "in": vlib.ToMap(cs), "kind": cs.Kind, "disk": w.diskFP, "interval": 1000})
 	ep, err := local.NewEndpoint(nil, w.root, w.sid, synchronization.Version_Version1, cfg, false)
@@ -442,60 +472,106 @@ func (w *world) xState() string {
 	if fi.IsDir() {
 		return "b"
 	}
-	if fi.Size() == int64(len(fileContent("c"))) {
+	switch fi.Size() {
+	case int64(len(fileContent("c"))):
 		return "c"
+	case int64(len(fileContent("d"))):
+		return "d"
 	}
-	return "d"
+	return "f"
 }
 
-func (w *world) atomicOp(op string) {
+// fsop performs one atomic filesystem operation the way an external process
+// would (kind mkdir | rm | put, path relative to the root) and records the
+// root as the walker sees it afterwards.
+func (w *world) fsop(kind, rel, content string) {
 	w.mu.Lock()
 	defer w.mu.Unlock()
-	x := filepath.Join(w.root, "x")
+	p := filepath.Join(w.root, filepath.FromSlash(rel))
 	var err error
-	switch op {
+	switch kind {
 	case "mkdir":
-		err = os.Mkdir(x, 0o755)
+		err = os.Mkdir(p, 0o755)
 	case "rm":
-		err = os.Remove(x)
-	case "putc", "putd":
+		err = os.Remove(p)
+	case "put":
 		w.mclock++
 		tmp := filepath.Join(w.tmp, fmt.Sprintf("new%d", w.mclock))
-		if err = os.WriteFile(tmp, fileContent(op[3:]), 0o644); err == nil {
+		if err = os.WriteFile(tmp, fileContent(content), 0o644); err == nil {
 			t := time.Unix(1600000000+w.mclock*3, 0)
 			os.Chtimes(tmp, t, t)
-			err = os.Rename(tmp, x)
+			if err = os.Rename(tmp, p); err != nil {
+				os.Remove(tmp)
+			}
 		}
-	case "temp+":
-		err = os.WriteFile(filepath.Join(w.root, tempPrefix+"scratch"), []byte("temporary"), 0o644)
-	case "temp-":
-		err = os.Remove(filepath.Join(w.root, tempPrefix+"scratch"))
 	}
 	before := w.diskFP
 	fp := w.noteDiskLocked()
 	if fp != before {
 		w.nEdits++
 	}
-	w.emitLocked(map[string]any{"ev": "Edit", "op": op, "err": errText(err), "disk": fp})
+	w.emitLocked(map[string]any{"ev": "Edit", "op": kind + " " + rel + " " + content, "err": errText(err), "disk": fp})
 }
 
-// editTo brings x to the state named v by atomic operations.
+func (w *world) atomicOp(op string) {
+	switch op {
+	case "temp+":
+		w.fsop("put", tempPrefix+"scratch", "u9")
+	case "temp-":
+		w.fsop("rm", tempPrefix+"scratch", "")
+	}
+}
+
+// clearX removes x, one atomic operation at a time.
+func (w *world) clearX() {
+	switch w.xState() {
+	case "a":
+	case "b":
+		des, _ := os.ReadDir(filepath.Join(w.root, "x"))
+		for _, de := range des {
+			w.fsop("rm", "x/"+de.Name(), "")
+		}
+		w.fsop("rm", "x", "")
+	default:
+		w.fsop("rm", "x", "")
+	}
+}
+
+// editTo brings x to the state named v (a absent, b directory {k1, k2}, c / d
+// file) or applies the named edit inside it, by atomic operations.
 func (w *world) editTo(v string) {
-	cur := w.xState()
-	if cur == v {
+	switch v {
+	case "modk1":
+		w.fsop("put", "x/k1", "u1")
+		return
+	case "addk9":
+		w.fsop("put", "x/k9", "u9")
+		return
+	case "rmk2":
+		w.fsop("rm", "x/k2", "")
+		return
+	case "mod":
+		w.fsop("put", "x", "u1")
+		return
+	case "same":
+		w.fsop("put", "x", "s")
 		return
 	}
-	fileToFile := (cur == "c" || cur == "d") && (v == "c" || v == "d")
-	if cur != "a" && !fileToFile {
-		w.atomicOp("rm")
+	cur := w.xState()
+	isFile := func(s string) bool { return s == "c" || s == "d" || s == "f" }
+	if cur == v && v != "b" {
+		return
+	}
+	if !(isFile(cur) && isFile(v)) {
+		w.clearX()
 	}
 	switch v {
 	case "b":
-		w.atomicOp("mkdir")
-	case "c":
-		w.atomicOp("putc")
-	case "d":
-		w.atomicOp("putd")
+		w.fsop("mkdir", "x", "")
+		w.fsop("put", "x/k1", "c")
+		w.fsop("put", "x/k2", "d")
+	case "c", "d":
+		w.fsop("put", "x", v)
 	}
 }
 
@@ -568,48 +644,79 @@ loop:
 	return sig
 }
 
+func fileEntry(v string) *core.Entry {
+	return &core.Entry{Kind: core.EntryKind_File, Digest: digestOf(v)}
+}
+
 func entryFor(v string) *core.Entry {
 	switch v {
 	case "b":
-		return &core.Entry{Kind: core.EntryKind_Directory}
+		return &core.Entry{Kind: core.EntryKind_Directory, Contents: map[string]*core.Entry{"k1": fileEntry("c"), "k2": fileEntry("d")}}
+	case "bz": // a directory one of whose files cannot be staged
+		return &core.Entry{Kind: core.EntryKind_Directory, Contents: map[string]*core.Entry{"k1": fileEntry("c"), "k3": fileEntry("z")}}
 	case "c", "d":
-		return &core.Entry{Kind: core.EntryKind_File, Digest: digestOf(v)}
+		return fileEntry(v)
 	}
 	return nil
 }
 
-// transitionBegin plans x: (what the last snapshot says) -> v and starts the call.
-func (w *world) transitionBegin(v string) bool {
+// transitionBegin plans x: (what the last snapshot says) -> v and starts the
+// call. partial: arrange for the transition to go wrong part-way if the plan
+// allows it: content the scan ignores is planted in a directory that is going
+// to be removed; a directory that is going to be created gets a file that
+// cannot be staged.
+func (w *world) transitionBegin(v string, partial bool) bool {
 	if w.lastScan == nil {
 		w.abort("transition without snapshot")
 		return false
 	}
 	var old *core.Entry
 	if c := w.lastScan.Content; c != nil && c.Contents != nil {
-		old = c.Contents["x"]
+		old = synchronizable(c.Contents["x"])
 	}
 	nw := entryFor(v)
+	if partial {
+		if old != nil && old.Kind == core.EntryKind_Directory && len(old.Contents) > 0 {
+			w.fsop("put", "x/junk"+ignoredSuffix, "u9")
+		} else if v == "b" {
+			nw = entryFor("bz")
+		}
+	}
 	if fpEntry(old) == fpEntry(nw) {
 		return false // nothing to plan
 	}
 	staged := false
 	stageErr := ""
+	var paths []string
+	var digests [][]byte
 	if nw != nil && nw.Kind == core.EntryKind_File {
+		paths, digests = []string{"x"}, [][]byte{nw.Digest}
+	} else if nw != nil {
+		names := []string{}
+		for n := range nw.Contents {
+			names = append(names, n)
+		}
+		sort.Strings(names)
+		for _, n := range names {
+			paths = append(paths, "x/"+n)
+			digests = append(digests, nw.Contents[n].Digest)
+		}
+	}
+	unsourced := 0
+	if len(paths) > 0 {
 		var left []string
 		var err error
-		ok := w.guard(func() { left, _, _, err = w.ep.Stage([]string{"x"}, [][]byte{nw.Digest}) })
+		ok := w.guard(func() { left, _, _, err = w.ep.Stage(paths, digests) })
 		if !ok {
 			w.abort("Stage did not return")
 			return false
 		}
 		staged = true
 		stageErr = errText(err)
-		if err == nil && len(left) != 0 {
-			stageErr = "content not sourced from the root"
-		}
+		unsourced = len(left)
 	}
 	t0 := w.now()
-	w.emit(map[string]any{"ev": "TransitionCall", "old": fpEntry(old), "new": fpEntry(nw), "staged": staged, "stageErr": stageErr, "t": t0})
+	w.emit(map[string]any{"ev": "TransitionCall", "old": fpEntry(old), "new": fpEntry(nw), "partial": partial, "staged": staged, "stageErr": stageErr, "unsourced": unsourced, "t": t0})
 	w.tRec = map[string]any{"ev": "Transition", "old": fpEntry(old), "new": fpEntry(nw), "t0": t0}
 	w.tdone = make(chan struct{})
 	w.tActive = true
@@ -623,11 +730,44 @@ func (w *world) transitionBegin(v string) bool {
 			rec["res"] = fpEntry(results[0])
 		}
 		rec["problems"] = len(problems)
+		pp := []any{}
+		for _, p := range problems {
+			pp = append(pp, splitPath(p.Path))
+		}
+		rec["ppaths"] = pp
 		rec["missing"] = missing
 		rec["err"] = errText(err)
 		close(done)
 	}()
 	return true
+}
+
+// synchronizable copies an entry without the untracked content below it (what
+// reconciliation hands to Transition).
+func synchronizable(e *core.Entry) *core.Entry {
+	if e == nil || e.Kind == core.EntryKind_Untracked {
+		return nil
+	}
+	out := &core.Entry{Kind: e.Kind, Executable: e.Executable, Digest: e.Digest, Target: e.Target, Problem: e.Problem}
+	for n, c := range e.Contents {
+		if sc := synchronizable(c); sc != nil {
+			if out.Contents == nil {
+				out.Contents = map[string]*core.Entry{}
+			}
+			out.Contents[n] = sc
+		}
+	}
+	return out
+}
+
+func splitPath(p string) []any {
+	out := []any{}
+	for _, f := range strings.Split(p, "/") {
+		if f != "" {
+			out = append(out, f)
+		}
+	}
+	return out
 }
 
 // transitionEnd waits for the call to return and records it.
@@ -776,9 +916,9 @@ func runGated(c *vlib.Ctx, cs caseSpec) *world {
 			w.scan(true)
 		case "W":
 			w.poll(func(waited time.Duration) bool { return waited > gatedPollWait })
-		case "Tl":
+		case "Tl", "Tlp":
 			n := w.count(gTransUnlocked)
-			if w.transitionBegin(st.V) {
+			if w.transitionBegin(st.V, st.A == "Tlp") {
 				if at, ok := w.waitGateOrReturn(gTransUnlocked, n+1); !ok {
 					w.abort("Transition did not reach the window")
 				} else if at {
@@ -855,13 +995,39 @@ func runRandom(c *vlib.Ctx, cs caseSpec) *world {
 			}
 			switch w.xState() {
 			case "a":
-				w.atomicOp([]string{"mkdir", "putc", "putd"}[re.Intn(3)])
+				switch re.Intn(3) {
+				case 0:
+					w.fsop("mkdir", "x", "")
+				case 1:
+					w.fsop("put", "x", "c")
+				default:
+					w.fsop("put", "x", "d")
+				}
 			case "b":
-				w.atomicOp("rm")
-			case "c":
-				w.atomicOp([]string{"rm", "putd"}[re.Intn(2)])
+				switch re.Intn(9) {
+				case 0:
+					w.fsop("put", "x/k1", []string{"c", "u1"}[re.Intn(2)])
+				case 1:
+					w.fsop("put", "x/k2", "d")
+				case 2:
+					w.fsop("put", "x/k9", "u9")
+				case 3:
+					w.fsop("rm", "x/k1", "")
+				case 4:
+					w.fsop("rm", "x/k2", "")
+				case 5:
+					w.fsop("rm", "x/k9", "")
+				case 6:
+					w.fsop("rm", "x/junk"+ignoredSuffix, "")
+				default:
+					w.fsop("rm", "x", "")
+				}
 			default:
-				w.atomicOp([]string{"rm", "putc"}[re.Intn(2)])
+				if re.Intn(2) == 0 {
+					w.fsop("rm", "x", "")
+				} else {
+					w.fsop("put", "x", []string{"c", "d", "u1"}[re.Intn(3)])
+				}
 			}
 		}
 	}()
@@ -869,7 +1035,7 @@ func runRandom(c *vlib.Ctx, cs caseSpec) *world {
 	w.scan(false)
 	for i := 0; i < cs.Ops && !w.aborted; i++ {
 		if rc.Intn(2) == 0 {
-			if w.transitionBegin(vals[rc.Intn(len(vals))]) {
+			if w.transitionBegin(vals[rc.Intn(len(vals))], rc.Intn(3) == 0) {
 				if !w.transitionEnd() {
 					break
 				}
@@ -933,17 +1099,153 @@ func sched(s string) []step {
 }
 
 // named schedules that are always run (they are also members of the TLC-generated set)
-var named = []struct{ name, s string }{
-	{"revert-after-rescan-b", "P S Tl:b Tw Tr W S E:a"},         // finding 9
-	{"revert-after-rescan-c", "P S Tl:c Tw Tr W S E:a"},         // finding 9, file
-	{"edit-before-baseline", "S E:b P"},                         // finding 10
-	{"edit-before-baseline-c", "S E:c P"},                       // finding 10, file
-	{"rescan-after-transition", "P S Tl:b Tw Tr W S"},           // stale snapshot if accelerate is not reset
-	{"poller-in-window", "P S Tl:c P Tw Tr W S"},                // ... or reset before the window
-	{"revert-inside-window", "P S Tl:b Tw E:a Tr"},              // needs the strobe in Transition
-	{"revert-before-rescan", "P S Tl:c Tw Tr E:a W S"},          // the strobe covers it
-	{"temporary-file", "P S T+ P T- P E:b P W S"},               // temporaries are not modifications
-	{"delete-and-recreate", "P S E:c P W S Tl:a Tw Tr W S E:c"}, // reversal of a deletion
+var named = []struct{ name, s, init string }{
+	{"revert-after-rescan-b", "P S Tl:b Tw Tr W S E:a", ""},         // finding 9
+	{"revert-after-rescan-c", "P S Tl:c Tw Tr W S E:a", ""},         // finding 9, file
+	{"edit-before-baseline", "S E:b P", ""},                         // finding 10
+	{"edit-before-baseline-c", "S E:c P", ""},                       // finding 10, file
+	{"rescan-after-transition", "P S Tl:b Tw Tr W S", ""},           // stale snapshot if accelerate is not reset
+	{"poller-in-window", "P S Tl:c P Tw Tr W S", ""},                // ... or reset before the window
+	{"revert-inside-window", "P S Tl:b Tw E:a Tr", ""},              // needs the strobe in Transition
+	{"revert-before-rescan", "P S Tl:c Tw Tr E:a W S", ""},          // the strobe covers it
+	{"temporary-file", "P S T+ P T- P E:b P W S", ""},               // temporaries are not modifications
+	{"delete-and-recreate", "P S E:c P W S Tl:a Tw Tr W S E:c", ""}, // reversal of a deletion
+	// transitions that go wrong part-way: the disk changes although the plan was not carried out
+	{"partial-removal-ignored-content", "P S Tlp:a Tw Tr W S", "b"},     // *.log inside: children removed, directory stays
+	{"partial-removal-then-file", "P S Tlp:c Tw Tr W S", "b"},           // ... and the replacing file cannot be created
+	{"partial-removal-poller-in-window", "P S Tlp:a P Tw Tr W S", "b"},  // poller scans inside the window
+	{"partial-removal-child-edited", "P S E:modk1 Tl:a Tw Tr W S", "b"}, // child modified after the scan stays
+	{"partial-removal-child-added", "P S E:addk9 Tl:a Tw Tr W S", "b"},  // unknown child stays
+	{"partial-creation-missing-file", "P S Tlp:b Tw Tr W S", ""},        // one of two staged files is missing
+	{"partial-creation-over-file", "P S Tlp:b Tw Tr W S E:a", "c"},      // file removed, directory created in part
+	{"partial-removal-built-by-edits", "P S E:b P W S Tlp:a Tw Tr W S", ""},
+}
+
+// ---------------------------------------------------------------------------
+// C08 scenarios: Scan -> external edit -> exactly n polling scans -> Transition
+
+type c08Spec struct {
+	Name  string `json:"name"`
+	Init  string `json:"init"`  // x before the endpoint is created: "c" file, "b" directory {k1, k2}
+	Edit  string `json:"edit"`  // mod | same (file x), modk1 | addk9 (child of directory x)
+	Plan  string `json:"plan"`  // what the controller's plan makes of x: a (delete), b, c, d
+	Polls int    `json:"polls"` // polling scans that complete between the edit and the Transition call
+	Full  bool   `json:"full"`  // the controller's scan is a full one
+}
+
+func c08Scenarios() []c08Spec {
+	out := []c08Spec{}
+	add := func(init, edit, plan string, polls int, full bool) {
+		n := fmt.Sprintf("%s-%s-to-%s-polls%d", init, edit, plan, polls)
+		if full {
+			n += "-full"
+		}
+		out = append(out, c08Spec{Name: n, Init: init, Edit: edit, Plan: plan, Polls: polls, Full: full})
+	}
+	for polls := 0; polls <= 2; polls++ {
+		for _, full := range []bool{false, true} {
+			if full && polls != 1 {
+				continue
+			}
+			for _, edit := range []string{"mod", "same"} {
+				for _, plan := range []string{"a", "d", "b"} {
+					add("c", edit, plan, polls, full)
+				}
+			}
+			for _, edit := range []string{"modk1", "addk9"} {
+				for _, plan := range []string{"a", "c"} {
+					add("b", edit, plan, polls, full)
+				}
+			}
+		}
+	}
+	return out
+}
+
+func runC08(c *vlib.Ctx, sp c08Spec) {
+	w, err := newWorld(c, caseSpec{Kind: "gated", Name: sp.Name, Steps: []step{}, Init: sp.Init}, true)
+	if err != nil {
+		vlib.Fatal("new world: %v", err)
+	}
+	path := []any{"x"}
+	switch sp.Edit {
+	case "modk1":
+		path = []any{"x", "k1"}
+	case "addk9":
+		path = []any{"x", "k9"}
+	}
+	abs := w.root
+	for _, p := range path {
+		abs = filepath.Join(abs, p.(string))
+	}
+	edited, after := "nil", "nil"
+	planned := false
+	if w.pollerIteration() && w.scan(sp.Full) {
+		w.editTo(sp.Edit)
+		edited = fpDisk(abs)
+		ok := true
+		for i := 0; i < sp.Polls && ok; i++ {
+			ok = w.pollerIteration()
+		}
+		if ok && w.transitionBegin(sp.Plan, false) {
+			planned = w.transitionEnd()
+		}
+		after = fpDisk(abs)
+	}
+	w.mu.Lock()
+	polls, seenEdit := 0, false
+	rec := map[string]any{"ev": "EditAfterScan", "in": vlib.ToMap(sp), "path": path, "edited": edited, "after": after,
+		"problems": []any{}, "planned": planned && !w.aborted, "old": "", "new": "", "res": "", "err": "", "disk": fpDisk(w.root)}
+	for _, r := range w.recs {
+		switch {
+		case r["ev"] == "Edit":
+			seenEdit = true
+		case r["ev"] == "Gate" && r["point"] == gPollAfterScan && seenEdit && rec["new"] == "":
+			polls++
+		case r["ev"] == "TransitionCall":
+			rec["new"] = r["new"]
+		case r["ev"] == "Transition":
+			rec["old"], rec["res"], rec["err"] = r["old"], r["res"], r["err"]
+			if pp, ok := r["ppaths"].([]any); ok {
+				rec["problems"] = pp
+			}
+		}
+	}
+	rec["polls"] = polls
+	w.mu.Unlock()
+	w.close()
+	flushMu.Lock()
+	c.Emit(rec)
+	c.Eval()
+	if rec["planned"] == true && polls == sp.Polls {
+		c.NonTrivial("c08:" + sp.Name)
+	}
+	flushMu.Unlock()
+}
+
+func runC08All(c *vlib.Ctx) error {
+	sps := c08Scenarios()
+	c.SetExhaustive(true)
+	ch := make(chan c08Spec)
+	var wg sync.WaitGroup
+	for i := 0; i < argInt(c, "par", 32); i++ {
+		wg.Add(1)
+		go func() {
+			defer wg.Done()
+			for sp := range ch {
+				runC08(c, sp)
+			}
+		}()
+	}
+	for i, sp := range sps {
+		if i < 3 {
+			c.Sample(vlib.ToMap(sp))
+		}
+		ch <- sp
+	}
+	close(ch)
+	wg.Wait()
+	return nil
 }
 
 func argInt(c *vlib.Ctx, key string, def int) int {
@@ -958,13 +1260,16 @@ func argInt(c *vlib.Ctx, key string, def int) int {
 }
 
 func run(c *vlib.Ctx) error {
+	if c.Prop == "C08" || argInt(c, "c08", 0) == 1 {
+		return runC08All(c)
+	}
 	nGated := argInt(c, "gated", 30)
 	nRandom := argInt(c, "random", 12)
 	ops := argInt(c, "ops", 6)
 	par := argInt(c, "par", 16)
 	cases := []caseSpec{}
 	for _, n := range named {
-		cases = append(cases, caseSpec{Kind: "gated", Name: n.name, Steps: sched(n.s)})
+		cases = append(cases, caseSpec{Kind: "gated", Name: n.name, Steps: sched(n.s), Init: n.init})
 	}
 	// schedules generated by TLC
 	beh := c.ReadBehaviours()
@@ -1030,6 +1335,12 @@ func run(c *vlib.Ctx) error {
 func replay(c *vlib.Ctx) error {
 	doc := c.LoadReplay()
 	begin, _ := doc["begin"].(map[string]any)
+	if c.Prop == "C08" || begin["ev"] == "EditAfterScan" {
+		var sp c08Spec
+		vlib.Decode(begin["in"], &sp)
+		runC08(c, sp)
+		return nil
+	}
 	var cs caseSpec
 	vlib.Decode(begin["in"], &cs)
 	if cs.Steps == nil {
